@@ -22,6 +22,97 @@ func init() {
 	engines["restart"] = engRestart
 	engines["crash"] = engCrash
 	engines["subinvalid_restart"] = engSubInvalidRestart
+	engines["restart_life"] = engRestartLife
+	engines["restart_expiry"] = engRestartExpiry
+}
+
+// hx restart_life (C14, restart clause): the two-life histories (a broker process ended by shutdown or
+// killed, the store-loading step, a second process in which client ids come back with Clean Start 1 or
+// a new persistent session, a final restart), as restart cases.
+func engRestartLife(seed int64, tier string, _ []string, out *sx.Out) {
+	env := newStoreEnv()
+	defer env.close()
+	twoLifeCases(env, rand.New(rand.NewSource(seed)), tier, false, out)
+}
+
+// hx restart_expiry (C25, restart clause): server maximum {0, 4, 86400} s x MQTT 5 publishes with message
+// expiry interval {0, 2, 10, 100000} and an MQTT 3.1.1 publish, retained and queued for an offline
+// persistent session, on every back end; shutdown; restart on the same store; housekeeping with times
+// around every deadline.
+//   case: (backend maximum events ((now (retained topics) ((client packet-id) ...)) ...))
+func engRestartExpiry(seed int64, tier string, _ []string, out *sx.Out) {
+	env := newStoreEnv()
+	defer env.close()
+	defer func() { rsMaxCap = -1 }()
+	for _, maxcap := range []int64{0, 4, 86400} {
+		for be := 0; be < beCount; be++ {
+			rsMaxCap = maxcap
+			loc := env.fresh(be)
+			hook, cfg := env.hookConfig(loc)
+			b, err := newRsBroker(hook, cfg, -1)
+			if err != nil {
+				panic(err)
+			}
+			s := &rsScript{rng: rand.New(rand.NewSource(seed)), b: b}
+			sub := s.conn(rsConnect{id: "late:1", ver: 5, sei: 3600, seiFlag: true})
+			s.sub(sub, "t/#", 1)
+			s.drop(sub)
+			p5 := s.conn(rsConnect{id: "p5", ver: 5, clean: true})
+			p4 := s.conn(rsConnect{id: "p4", ver: 4, clean: true})
+			base := time.Now().Unix()
+			for _, mei := range []uint32{0, 2, 10, 100000} {
+				s.pub(p5, fmt.Sprintf("t/%d", mei), "m", 1, true, mei)
+			}
+			s.pub(p4, "t/v4", "m", 1, true, 0)
+			b.shutdown()
+			rsPlayed++
+			if b.raceHit {
+				skipHistory(out, "restart_expiry history abandoned")
+				env.discard(loc)
+				continue
+			}
+			evs, _ := b.rec.snapshotEvents()
+			hook2, cfg2 := env.hookConfig(loc)
+			b2, err := newRsBroker(hook2, cfg2, -2)
+			if err != nil {
+				panic(err)
+			}
+			if err := b2.srv.VerifReadStore(); err != nil {
+				panic(err)
+			}
+			ticks := sx.L{}
+			offs := []int64{}
+			for k := int64(0); k <= 14; k++ {
+				offs = append(offs, k)
+			}
+			for _, c := range []int64{86400, 100000} {
+				for k := int64(-2); k <= 4; k++ {
+					offs = append(offs, c+k)
+				}
+			}
+			for _, off := range offs {
+				now := base + off
+				b2.srv.VerifTick("retained", now)
+				b2.srv.VerifTick("inflight", now)
+				topics, ifm := sx.L{}, sx.L{}
+				for t := range b2.srv.Topics.Retained.GetAll() {
+					if !strings.HasPrefix(t, "$SYS") {
+						topics = append(topics, sx.S(t))
+					}
+				}
+				for id, cl := range b2.srv.Clients.GetAll() {
+					for _, pk := range cl.State.Inflight.GetAll(false) {
+						ifm = append(ifm, sx.L{sx.S(id), sx.N(pk.PacketID)})
+					}
+				}
+				ticks = append(ticks, sx.L{sx.N(uint64(now)), sortedL(topics), sortedL(ifm)})
+			}
+			_ = b2.srv.Close()
+			out.Comment(fmt.Sprintf("server maximum %d backend %s: %s", maxcap, beNames[be], strings.Join(s.log, "; ")))
+			out.Case(sx.L{sx.N(be), sx.N(uint64(maxcap)), evs, ticks})
+			env.discard(loc)
+		}
+	}
 }
 
 // hx subinvalid_restart (C30, restart clause): a persistent session of an MQTT 3.1 / 3.1.1 / 5 client
@@ -590,6 +681,134 @@ var directed = []func(s *rsScript){
 	},
 }
 
+// ---------- histories over several lives of the broker on one store ----------
+
+// rsWorld is one store and the storage events that reached it over the successive broker processes.
+type rsWorld struct {
+	env    *storeEnv
+	loc    storeLoc
+	events sx.L
+	lives  int
+	log    []string
+	rng    *rand.Rand
+	race   bool
+}
+
+// life starts the next broker process on the store: for every process after the first the
+// store-loading step runs first (its own hook calls are recorded like all others).
+func (w *rsWorld) life() (*rsBroker, *rsScript) {
+	hook, cfg := w.env.hookConfig(w.loc)
+	b, err := newRsBroker(hook, cfg, -1)
+	if err != nil {
+		panic(err)
+	}
+	b.rec.events = w.events
+	if w.lives > 0 {
+		if err := b.srv.VerifReadStore(); err != nil {
+			panic(err)
+		}
+	}
+	w.lives++
+	s := &rsScript{rng: w.rng, b: b}
+	s.note("--- broker process %d", w.lives)
+	return b, s
+}
+
+// end ends a broker process: gracefully (Close) or killed (nothing after this instant reaches the store).
+func (w *rsWorld) end(b *rsBroker, s *rsScript, kill bool) {
+	if kill {
+		s.note("kill")
+		b.rec.kill()
+	} else {
+		s.note("shutdown")
+	}
+	b.shutdown()
+	w.race = w.race || b.raceHit
+	w.events, _ = b.rec.snapshotEvents()
+	w.log = append(w.log, s.log...)
+}
+
+// two-life histories: what the first process leaves in the store, a second process and a final restart
+var twoLives = []func(w *rsWorld) *rsBroker{
+	// an ending session (MQTT 3 clean session) with a subscription and an unacknowledged message; kill;
+	// the same client id comes back with a persistent session that subscribes to something else
+	func(w *rsWorld) *rsBroker {
+		b, s := w.life()
+		c := s.conn(rsConnect{id: "z:1", ver: 4, clean: true})
+		s.sub(c, "st/#", 1)
+		p := s.conn(rsConnect{id: "p", ver: 4, clean: true})
+		s.pub(p, "st/x", "old", 1, false, 0)
+		w.end(b, s, true)
+		b, s = w.life()
+		c = s.conn(rsConnect{id: "z:1", ver: 4})
+		s.sub(c, "new/1", 1)
+		w.end(b, s, false)
+		return b
+	},
+	// the same with MQTT 5: session expiry 0, then Clean Start 1 with a session expiry interval
+	func(w *rsWorld) *rsBroker {
+		b, s := w.life()
+		c := s.conn(rsConnect{id: "z_2", ver: 5, sei: 0, seiFlag: true})
+		s.sub(c, "st/+", 2)
+		p := s.conn(rsConnect{id: "p", ver: 5, clean: true})
+		s.pub(p, "st/x", "old", 2, false, 0)
+		w.end(b, s, true)
+		b, s = w.life()
+		c = s.conn(rsConnect{id: "z_2", ver: 5, clean: true, sei: 600, seiFlag: true})
+		s.sub(c, "new/2", 0)
+		w.end(b, s, false)
+		return b
+	},
+	// a persistent session survives a kill and a graceful restart, expires in the next process, and the
+	// client id starts a new persistent session
+	func(w *rsWorld) *rsBroker {
+		b, s := w.life()
+		c := s.conn(rsConnect{id: "z/3", ver: 5, sei: 30, seiFlag: true})
+		s.sub(c, "st/3", 1)
+		w.end(b, s, true)
+		b, s = w.life()
+		s.tick("clients", 4000)
+		c = s.conn(rsConnect{id: "z/3", ver: 5, sei: 600, seiFlag: true})
+		s.sub(c, "new/3", 1)
+		w.end(b, s, false)
+		return b
+	},
+	// a persistent session with subscriptions and an unacknowledged message is killed and resumed
+	func(w *rsWorld) *rsBroker {
+		b, s := w.life()
+		c := s.conn(rsConnect{id: "z:4", ver: 4})
+		s.sub(c, "keep/#", 1)
+		p := s.conn(rsConnect{id: "p", ver: 4, clean: true})
+		s.pub(p, "keep/x", "k", 1, true, 0)
+		w.end(b, s, true)
+		b, s = w.life()
+		c = s.conn(rsConnect{id: "z:4", ver: 4})
+		s.sub(c, "more", 0)
+		w.end(b, s, false)
+		return b
+	},
+}
+
+// runTwoLives plays two-life history i (i >= len(twoLives): random operations in both lives) and
+// returns the last broker (shut down) and the world.
+func runTwoLives(env *storeEnv, loc storeLoc, i int, seed int64) (*rsBroker, *rsWorld) {
+	w := &rsWorld{env: env, loc: loc, rng: rand.New(rand.NewSource(seed))}
+	if i < len(twoLives) {
+		return twoLives[i](w), w
+	}
+	b, s := w.life()
+	for j := 0; j < 4+w.rng.Intn(12); j++ {
+		s.step()
+	}
+	w.end(b, s, w.rng.Intn(2) == 0)
+	b, s = w.life()
+	for j := 0; j < 3+w.rng.Intn(10); j++ {
+		s.step()
+	}
+	w.end(b, s, false)
+	return b, w
+}
+
 // runDirected plays directed history i.
 func runDirected(env *storeEnv, loc storeLoc, i int, limit int) (*rsBroker, *rsScript) {
 	hook, cfg := env.hookConfig(loc)
@@ -650,9 +869,11 @@ func engRestart(seed int64, tier string, _ []string, out *sx.Out) {
 	if tier == "thorough" {
 		n = 400
 	}
+	defer func() { rsMaxCap = -1 }()
 	for i := -len(directed); i < n; i++ {
 		hseed := rng.Int63()
 		steps := 6 + rng.Intn(30)
+		rsMaxCap = []int64{-1, -1, 0, 4}[(i+len(directed))%4] // the server's maximum message expiry interval varies
 		for _, be := range backendsFor(tier, i) {
 			loc := env.fresh(be)
 			var b *rsBroker
@@ -677,6 +898,44 @@ func engRestart(seed int64, tier string, _ []string, out *sx.Out) {
 			env.discard(loc)
 		}
 	}
+	twoLifeCases(env, rng, tier, false, out)
+}
+
+// twoLifeCases emits the two-life histories as restart cases (asCrash: as complete crash cases).
+func twoLifeCases(env *storeEnv, rng *rand.Rand, tier string, asCrash bool, out *sx.Out) {
+	n := len(twoLives) + 6
+	if tier == "thorough" {
+		n = len(twoLives) + 60
+	}
+	defer func() { rsMaxCap = -1 }()
+	for i := 0; i < n; i++ {
+		hseed := rng.Int63()
+		rsMaxCap = []int64{-1, 0, -1, 4}[i%4]
+		bes := []int{beBadger, bePebble, beBolt, beRedis}
+		if i >= len(twoLives) && tier != "thorough" {
+			bes = []int{[]int{beBolt, beRedis, bePebble}[i%3]}
+		}
+		for _, be := range bes {
+			loc := env.fresh(be)
+			b, w := runTwoLives(env, loc, i, hseed)
+			rsPlayed++
+			if w.race {
+				skipHistory(out, fmt.Sprintf("two-life history %d backend %s abandoned", i, beNames[be]))
+				env.discard(loc)
+				continue
+			}
+			snap1 := snapshot(b.srv)
+			snap2 := restartOn(env, loc)
+			out.Comment(fmt.Sprintf("two-life history %d seed %d backend %s: %s", i, hseed, beNames[be], strings.Join(w.log, "; ")))
+			mc := sx.N(uint64(b.srv.Options.Capabilities.MaximumMessageExpiryInterval))
+			if asCrash {
+				out.Case(sx.L{sx.N(be), mc, w.events, sx.N(100000), sx.N(len(w.events)), sx.N(0), snap1, snap2})
+			} else {
+				out.Case(sx.L{sx.N(be), mc, w.events, snap1, snap2})
+			}
+			env.discard(loc)
+		}
+	}
 }
 
 func engCrash(seed int64, tier string, _ []string, out *sx.Out) {
@@ -687,9 +946,11 @@ func engCrash(seed int64, tier string, _ []string, out *sx.Out) {
 	if tier == "thorough" {
 		n = 100
 	}
+	defer func() { rsMaxCap = -1 }()
 	for i := -len(directed); i < n; i++ {
 		hseed := rng.Int63()
 		steps := 5 + rng.Intn(16)
+		rsMaxCap = []int64{-1, -1, 0, 4}[(i+len(directed))%4]
 		var bes []int
 		switch {
 		case tier == "thorough" && (i%10 == 0 || i < 0):
@@ -741,4 +1002,5 @@ func engCrash(seed int64, tier string, _ []string, out *sx.Out) {
 			}
 		}
 	}
+	twoLifeCases(env, rng, tier, true, out)
 }
